@@ -56,8 +56,8 @@
  "name": "p1_extra_isize_sound",
  "props": ["C05"],
  "level": "U",
- "tier": "wip",
- "tier_after_hooks": "quick",
+ "tier": "quick",
+ "tier_after_fix": "quick",
  "harness": "h_xs_sound",
  "replace": ["check_ea_in_inode"],
  "includes": ["e2fsck", "lib/support"],
